@@ -55,7 +55,7 @@ def run(ctx):
             elif rec["toks"] != c["toks"]:
                 bad.append("real lexer tokens %s, Lexer.tla %s" % (rec["toks"], c["toks"]))
             bad += judge_contract(rec)
-            if bad:
+            if bad and not ctx.enough():
                 again = [x for x in vlib.run_harness(ctx, binary, cases=[{"src": c["src"], "rx": c["rx"]}]) if "n" in x][0]
                 if again["livelock"] or again["toks"] != c["toks"] or judge_contract(again):
                     ctx.violation({"classes": c["src"], "rx": c["rx"], "text": rec["text"], "model_tokens": c["toks"], "real_tokens": again["toks"],
@@ -82,7 +82,7 @@ def run(ctx):
         worst = max(worst, rec["contract"].get("secs", 0))
         kinds[c["mut"]["kind"]] = kinds.get(c["mut"]["kind"], 0) + 1
         bad = judge_contract(rec)
-        if bad:
+        if bad and not ctx.enough():
             again = [x for x in vlib.run_harness(ctx, binary, cases=[{"seed": 1, "text": rec["text"]}]) if "n" in x][0]
             bad2 = judge_contract(again)
             if bad2:
